@@ -11,13 +11,18 @@ use crate::sut;
 use postcard::accumulator::{CobsAccumulator, FeedResult};
 use serde::{Deserialize, Serialize};
 
-pub const NS: [usize; 24] = [
+pub const NS: [usize; 27] = [
     1, 2, 3, 4, 5, 6, 7, 8, 9, 10, 12, 16, 24, 32, 48, 64, 100, 128, 255, 256, 257, 300, 520, 770,
+    65535, 65536, 70000,
 ];
+/// capacities beyond 16 bits: picked rarely, with their own generator (`gen_huge`)
+pub const HUGE: [usize; 3] = [65535, 65536, 70000];
 
 #[derive(Clone, Copy, Debug, PartialEq, Eq, Serialize, Deserialize)]
 pub enum SegKind {
     Valid,
+    /// validly framed strict prefix of a valid encoding
+    Truncated,
     WrongType,
     Corrupt,
     Empty,
@@ -27,11 +32,24 @@ pub enum SegKind {
     Random,
 }
 
+/// Ground truth known by construction of the workload (not from any decoder).
+#[derive(Clone, Debug, PartialEq, Eq, Serialize, Deserialize)]
+pub enum Expect {
+    /// the segment is the harness's own encoding + COBS framing of this value of the target type
+    Value(Val),
+    /// the segment is a correctly COBS-framed strict prefix of such an encoding: decoding must
+    /// run out of bytes
+    Error,
+}
+
 #[derive(Clone, Debug, Serialize, Deserialize)]
 pub struct Seg {
     pub kind: SegKind,
     /// non-zero bytes followed by exactly one 0x00
     pub bytes: Vec<u8>,
+    /// what delivering this segment must yield, when the workload knows it by construction
+    #[serde(default)]
+    pub expect: Option<Expect>,
 }
 
 #[derive(Clone, Debug, Serialize, Deserialize)]
@@ -240,7 +258,9 @@ mod p8 {
     pub const EMPTY_FEED_CALL: usize = 12;
     pub const FILL_N_MINUS_1_BEFORE_SENTINEL: usize = 13;
     pub const ISOLATED_DECODE_PANICS: usize = 14;
-    pub const NAMES: [&str; 15] = [
+    pub const TRUNCATED_REJECTED: usize = 15;
+    pub const HUGE_CAPACITY: usize = 16;
+    pub const NAMES: [&str; 17] = [
         "segment_of_exactly_N_bytes",
         "unterminated_tail_of_exactly_N_bytes",
         "chunk_with_3_or_more_sentinels",
@@ -256,6 +276,8 @@ mod p8 {
         "empty_feed_calls",
         "buffer_holds_N_minus_1_before_sentinel",
         "isolated_decode_panicked_segment_skipped",
+        "truncated_but_correctly_framed_encoding_rejected",
+        "capacity_65535_or_more",
     ];
 }
 
@@ -442,6 +464,32 @@ fn c08_history<const N: usize>(
                 _ => {}
             }
             if zero.is_some() {
+                // ground truth known by construction of the workload, independent of any decoder
+                match t.segments.get(results).and_then(|g| g.expect.as_ref()) {
+                    Some(Expect::Value(v)) => {
+                        if call.kind != Kind::Success || call.data.as_ref() != Some(v) {
+                            fail!(
+                                "well-formed-frame-delivered",
+                                "segment {results} is the encoding of {:?} (COBS-framed, fits N={N}); the accumulator reported {:?} {:?}",
+                                v,
+                                call.kind,
+                                call.data
+                            );
+                        }
+                    }
+                    Some(Expect::Error) => {
+                        if call.kind != Kind::DeserError {
+                            fail!(
+                                "malformed-frame-rejected",
+                                "segment {results} is a correctly framed but truncated encoding (a strict prefix of a valid one); the accumulator reported {:?} {:?} instead of a deserialisation error",
+                                call.kind,
+                                call.data
+                            );
+                        }
+                        out.probe(p8::TRUNCATED_REJECTED);
+                    }
+                    None => {}
+                }
                 results += 1;
                 if seg_calls >= 3 {
                     out.probe(p8::FRAME_FROM_3_CALLS);
@@ -480,6 +528,9 @@ fn c08_history<const N: usize>(
             hex(acc.verif_buffered()),
             hex(&t.tail)
         );
+    }
+    if N >= 65535 {
+        out.probe(p8::HUGE_CAPACITY);
     }
     if !t.tail.is_empty() {
         out.probe(p8::TAIL_PENDING_AT_END);
@@ -572,6 +623,9 @@ macro_rules! dispatch_n {
             300 => $f::<300>($t, $out),
             520 => $f::<520>($t, $out),
             770 => $f::<770>($t, $out),
+            65535 => $f::<65535>($t, $out),
+            65536 => $f::<65536>($t, $out),
+            70000 => $f::<70000>($t, $out),
             _ => {
                 $out.skipped = Some("capacity_not_instantiated");
             }
@@ -599,13 +653,33 @@ fn plain_budget(n: usize) -> Option<usize> {
     Some(p)
 }
 
-fn valid_frame(rng: &mut Rng, cfg: &GenCfg, shape: &Shape, max_frame: usize) -> Option<Vec<u8>> {
+fn valid_frame(rng: &mut Rng, cfg: &GenCfg, shape: &Shape, max_frame: usize) -> Option<(Vec<u8>, Val)> {
     let pb = plain_budget(max_frame)?;
     for _ in 0..6 {
         let mut budget = pb.min(cfg.budget) as isize;
         let val = shape::gen_val(rng, shape, &mut budget);
         let m = Msg { shape: shape.clone(), val };
         let f = cobs_frame(&m.ref_encode());
+        if f.len() <= max_frame {
+            return Some((f, m.val));
+        }
+    }
+    None
+}
+
+/// a correctly framed strict prefix of a valid encoding (1-3 payload bytes missing)
+fn truncated_frame(rng: &mut Rng, cfg: &GenCfg, shape: &Shape, max_frame: usize) -> Option<Vec<u8>> {
+    let pb = plain_budget(max_frame)?;
+    for _ in 0..6 {
+        let mut budget = pb.min(cfg.budget) as isize;
+        let val = shape::gen_val(rng, shape, &mut budget);
+        let m = Msg { shape: shape.clone(), val };
+        let plain = m.ref_encode();
+        if plain.is_empty() {
+            continue;
+        }
+        let cut = if rng.chance(3, 4) { 1 } else { rng.range(1, plain.len().min(3)) };
+        let f = cobs_frame(&plain[..plain.len() - cut]);
         if f.len() <= max_frame {
             return Some(f);
         }
@@ -614,12 +688,13 @@ fn valid_frame(rng: &mut Rng, cfg: &GenCfg, shape: &Shape, max_frame: usize) -> 
 }
 
 /// a valid frame of exactly `len` bytes for shapes whose length can be tuned
-fn exact_frame(rng: &mut Rng, shape: &Shape, len: usize) -> Option<Vec<u8>> {
+fn exact_frame(rng: &mut Rng, shape: &Shape, len: usize) -> Option<(Vec<u8>, Val)> {
     if len < 3 {
         return None;
     }
     // plain = varint(len) + payload ; frame = plain + 2 + floor(plain/254)
-    for payload in (0..len).rev() {
+    let guess = len.saturating_sub(2 + len / 254 + 3);
+    for payload in (guess.saturating_sub(6)..(guess + 8).min(len)).rev() {
         let m = match shape {
             Shape::Bytes => Msg { shape: shape.clone(), val: Val::Bytes(nonzero_bytes(rng, payload)) },
             Shape::Str => Msg { shape: shape.clone(), val: Val::Str("k".repeat(payload)) },
@@ -631,7 +706,7 @@ fn exact_frame(rng: &mut Rng, shape: &Shape, len: usize) -> Option<Vec<u8>> {
         };
         let f = cobs_frame(&m.ref_encode());
         if f.len() == len {
-            return Some(f);
+            return Some((f, m.val));
         }
         if f.len() < len {
             return None;
@@ -814,28 +889,30 @@ fn gen_acc_trace(rng: &mut Rng, o: &GenOpts, sweep_len: Option<usize>) -> AccTra
             break;
         }
         let fit = n.min(room);
-        let roll = rng.below(if o.overflow { 14 } else { 10 });
+        let roll = rng.below(if o.overflow { 15 } else { 11 });
+        let mk = |kind: SegKind, bytes: Vec<u8>, expect: Option<Expect>| Seg { kind, bytes, expect };
+        let empty = || Seg { kind: SegKind::Empty, bytes: vec![0], expect: None };
         let seg = match roll {
             0..=3 => {
                 let exact = rng.chance(1, 4) && fit == n;
                 let f = if exact { exact_frame(rng, &shape, n) } else { None };
                 match f.or_else(|| valid_frame(rng, &cfg, &shape, fit)) {
-                    Some(b) => Seg { kind: SegKind::Valid, bytes: b },
-                    None => Seg { kind: SegKind::Empty, bytes: vec![0] },
+                    Some((b, v)) => mk(SegKind::Valid, b, Some(Expect::Value(v))),
+                    None => empty(),
                 }
             }
             4 => match valid_frame(rng, &cfg, &other, fit) {
-                Some(b) => Seg { kind: SegKind::WrongType, bytes: b },
-                None => Seg { kind: SegKind::Empty, bytes: vec![0] },
+                Some((b, _)) => mk(SegKind::WrongType, b, None),
+                None => empty(),
             },
             5 => match valid_frame(rng, &cfg, &shape, fit) {
-                Some(mut b) => {
+                Some((mut b, _)) => {
                     damage_nonzero(rng, &mut b);
-                    Seg { kind: SegKind::Corrupt, bytes: b }
+                    mk(SegKind::Corrupt, b, None)
                 }
-                None => Seg { kind: SegKind::Empty, bytes: vec![0] },
+                None => empty(),
             },
-            6 => Seg { kind: SegKind::Empty, bytes: vec![0] },
+            6 => empty(),
             7..=9 => {
                 let l = match rng.below(4) {
                     0 => fit,
@@ -844,20 +921,24 @@ fn gen_acc_trace(rng: &mut Rng, o: &GenOpts, sweep_len: Option<usize>) -> AccTra
                 };
                 let mut b = nonzero_bytes(rng, l - 1);
                 b.push(0);
-                Seg { kind: SegKind::Garbage, bytes: b }
+                mk(SegKind::Garbage, b, None)
             }
-            10 | 11 => {
+            10 => match truncated_frame(rng, &cfg, &shape, fit) {
+                Some(b) => mk(SegKind::Truncated, b, Some(Expect::Error)),
+                None => empty(),
+            },
+            11 | 12 => {
                 // over-long *valid* frame: a frame of the target type longer than N
                 let want = (n + 1 + rng.small(2 * n + 8)).min(room.max(n + 1));
-                let f = exact_frame(rng, &shape, want).or_else(|| {
+                let f = exact_frame(rng, &shape, want).map(|x| x.0).or_else(|| {
                     let m = Msg { shape: Shape::Bytes, val: Val::Bytes(nonzero_bytes(rng, want.saturating_sub(3))) };
                     Some(cobs_frame(&m.ref_encode()))
                 });
                 let b = f.unwrap();
                 if b.len() > n {
-                    Seg { kind: SegKind::OverLong, bytes: b }
+                    mk(SegKind::OverLong, b, None)
                 } else {
-                    Seg { kind: SegKind::Garbage, bytes: b }
+                    mk(SegKind::Garbage, b, None)
                 }
             }
             _ => {
@@ -869,7 +950,7 @@ fn gen_acc_trace(rng: &mut Rng, o: &GenOpts, sweep_len: Option<usize>) -> AccTra
                 };
                 let mut b = nonzero_bytes(rng, l - 1);
                 b.push(0);
-                Seg { kind: SegKind::OverLongGarbage, bytes: b }
+                mk(SegKind::OverLongGarbage, b, None)
             }
         };
         total += seg.bytes.len();
@@ -901,6 +982,70 @@ fn gen_acc_trace(rng: &mut Rng, o: &GenOpts, sweep_len: Option<usize>) -> AccTra
         let s = t.stream();
         t.chunks = Chunks::List(gen_chunks(rng, &s, n));
     }
+    t
+}
+
+/// Capacities of 65535 bytes and more: frames and over-long segments around the 16-bit boundary
+/// of the fill level.
+fn gen_huge(rng: &mut Rng, overflow: bool) -> AccTrace {
+    let n = *rng.pick(&HUGE);
+    let shape = Shape::Bytes;
+    let small = |rng: &mut Rng| -> Seg {
+        let k = rng.range(0, 6);
+        let v = Val::Bytes(nonzero_bytes(rng, k));
+        let m = Msg { shape: Shape::Bytes, val: v };
+        Seg { kind: SegKind::Valid, bytes: cobs_frame(&m.ref_encode()), expect: Some(Expect::Value(m.val)) }
+    };
+    let mut segments = Vec::new();
+    if rng.chance(1, 2) {
+        segments.push(small(rng));
+    }
+    let big_len = |rng: &mut Rng, n: usize| -> usize {
+        let cands = [n, n - 1, 65535, 65536, 65537, 65534, 66000];
+        let c = *rng.pick(&cands);
+        c.min(n)
+    };
+    if overflow && rng.chance(2, 3) {
+        let l = match rng.below(4) {
+            0 => n + 1,
+            1 => 65536 + 1 + rng.small(40),
+            2 => 2 * n + 5,
+            _ => n + 1 + rng.range(0, 70000),
+        }
+        .max(n + 1);
+        let mut b = nonzero_bytes(rng, l - 1);
+        b.push(0);
+        segments.push(Seg { kind: SegKind::OverLongGarbage, bytes: b, expect: None });
+    } else {
+        let l = big_len(rng, n);
+        match exact_frame(rng, &shape, l) {
+            Some((b, v)) => segments.push(Seg { kind: SegKind::Valid, bytes: b, expect: Some(Expect::Value(v)) }),
+            None => segments.push(small(rng)),
+        }
+    }
+    for _ in 0..rng.range(0, 2) {
+        segments.push(small(rng));
+    }
+    let tail = match rng.below(4) {
+        0 => nonzero_bytes(rng, n),
+        1 if overflow => {
+            let k = n + 1 + rng.small(20);
+            nonzero_bytes(rng, k)
+        }
+        2 => nonzero_bytes(rng, 65536.min(n)),
+        _ => vec![],
+    };
+    let mut t = AccTrace { n, borrowed: rng.chance(1, 3), shape, segments, tail, chunks: Chunks::List(vec![]) };
+    let total = t.stream().len();
+    let k = *rng.pick(&[700usize, 4096, 65535, 65536, n, n + 1, usize::MAX / 2]);
+    let mut lens = Vec::new();
+    let mut used = 0;
+    while used < total {
+        let l = if k >= total { total } else { rng.range(k / 2 + 1, k) }.min(total - used);
+        lens.push(l);
+        used += l;
+    }
+    t.chunks = Chunks::List(lens);
     t
 }
 
@@ -967,6 +1112,7 @@ fn shrink_acc(t: &AccTrace) -> Vec<AccTrace> {
                 if j < b.len() - 1 {
                     let mut c = t.clone();
                     c.segments[i].bytes.remove(j);
+                    c.segments[i].expect = None;
                     out.push(c);
                 }
             }
@@ -974,6 +1120,7 @@ fn shrink_acc(t: &AccTrace) -> Vec<AccTrace> {
                 let mut c = t.clone();
                 let keep = (b.len() - 1) / 2;
                 c.segments[i].bytes.drain(keep..b.len() - 1);
+                c.segments[i].expect = None;
                 out.push(c);
             }
         }
@@ -985,6 +1132,7 @@ fn shrink_acc(t: &AccTrace) -> Vec<AccTrace> {
                     *x = 1;
                 }
             }
+            c.segments[i].expect = None;
             out.push(c);
         }
     }
@@ -999,6 +1147,9 @@ fn shrink_acc(t: &AccTrace) -> Vec<AccTrace> {
         if rank(&s) < rank(&t.shape) {
             let mut c = t.clone();
             c.shape = s;
+            for g in c.segments.iter_mut() {
+                g.expect = None;
+            }
             out.push(c);
         }
     }
@@ -1021,8 +1172,8 @@ impl Scenario for C08 {
     }
     fn default_runs(tier: Tier) -> u64 {
         match tier {
-            Tier::Quick => 300_000,
-            Tier::Thorough => 10_000_000,
+            Tier::Quick => 3_000_000,
+            Tier::Thorough => 120_000_000,
         }
     }
     fn gen(rng: &mut Rng, tier: Tier, run: u64) -> AccTrace {
@@ -1037,6 +1188,8 @@ impl Scenario for C08 {
                 Tier::Thorough => rng.range(2, 14),
             };
             gen_acc_trace(rng, &o, Some(l))
+        } else if run % 197 == 1 {
+            gen_huge(rng, false)
         } else {
             gen_acc_trace(rng, &o, None)
         }
@@ -1070,7 +1223,7 @@ impl Scenario for C08 {
         vec![
             "Precondition of the property enforced by the generator and re-checked by exec: every segment (sentinel included) and the tail are at most N bytes.".into(),
             "The yardstick for each result is the real postcard::from_bytes_cobs on a private copy of the segment, as the statement says; a history whose isolated decode panics is skipped and counted.".into(),
-            "Capacities instantiated: 1-10,12,16,24,32,48,64,100,128,255,256,257,300,520,770.".into(),
+            "Capacities instantiated: 1-10,12,16,24,32,48,64,100,128,255,256,257,300,520,770 and (rarely, with their own generator) 65535, 65536, 70000.".into(),
             "Seeded search, not proof: the schedule dimension is complete only for the swept short streams.".into(),
         ]
     }
@@ -1114,7 +1267,8 @@ mod p9 {
     pub const TWO_OVERFLOWS_ONE_SEGMENT: usize = 4;
     pub const WINDOW_UNCHANGED_ONCE: usize = 5;
     pub const ISOLATED_DECODE_PANICS: usize = 6;
-    pub const NAMES: [&str; 7] = [
+    pub const HUGE_CAPACITY: usize = 7;
+    pub const NAMES: [&str; 8] = [
         "well_formed_frame_delivered_right_after_an_overflowed_segment",
         "well_formed_frame_delivered_right_after_garbage",
         "well_formed_frames_delivered",
@@ -1122,6 +1276,7 @@ mod p9 {
         "two_or_more_overflow_reports_for_one_segment",
         "call_returned_its_window_unchanged",
         "isolated_decode_panicked",
+        "capacity_65535_or_more",
     ];
 }
 
@@ -1284,12 +1439,16 @@ fn c09_history<const N: usize>(
             if glen + 1 == N {
                 out.fault(f9::CAP_FRAME_PLUS_1);
             }
-            let iso = match decode_isolated(&g.bytes) {
-                Ok(v) => v,
-                Err(_) => {
-                    out.probe(p9::ISOLATED_DECODE_PANICS);
-                    None
-                }
+            let iso = match &g.expect {
+                // known by construction: the harness's own encoding of a value of the target type
+                Some(Expect::Value(v)) => Some(v.clone()),
+                _ => match decode_isolated(&g.bytes) {
+                    Ok(v) => v,
+                    Err(_) => {
+                        out.probe(p9::ISOLATED_DECODE_PANICS);
+                        None
+                    }
+                },
             };
             match iso {
                 Some(v) => {
@@ -1364,6 +1523,9 @@ fn c09_history<const N: usize>(
     if N <= 3 {
         out.probe(p9::TINY_CAPACITY);
     }
+    if N >= 65535 {
+        out.probe(p9::HUGE_CAPACITY);
+    }
     if any_overflow && frame_after_overflow {
         if let Chunks::List(_) = t.chunks {
             sig.usize(lens.len().min(8));
@@ -1414,8 +1576,8 @@ impl Scenario for C09 {
     }
     fn default_runs(tier: Tier) -> u64 {
         match tier {
-            Tier::Quick => 300_000,
-            Tier::Thorough => 10_000_000,
+            Tier::Quick => 1_500_000,
+            Tier::Thorough => 60_000_000,
         }
     }
     fn gen(rng: &mut Rng, tier: Tier, run: u64) -> AccTrace {
@@ -1430,6 +1592,8 @@ impl Scenario for C09 {
                 Tier::Thorough => rng.range(2, 14),
             };
             gen_acc_trace(rng, &o, Some(l))
+        } else if run % 197 == 1 {
+            gen_huge(rng, true)
         } else {
             gen_acc_trace(rng, &o, None)
         }
